@@ -30,6 +30,27 @@ BUILTIN_COMPONENTS = [
 UNITS = [Units.kg_m2_h_kPa, Units.SI, Units.GPU]
 
 
+# "few keys, many operations": a share of all cases reuses a handful of temperatures and a handful of long-lived
+# Composition OBJECTS across different mixtures, membranes and models, so that hidden state keyed too coarsely
+# (per-name / per-temperature / per-object memos) collides within one worker process
+TEMPERATURE_GRID = [293.15, 313.15, 333.15, 353.15]
+_COMPOSITION_POOL = []
+
+
+def pick_temperature(rng, lo, hi, p_grid=0.25):
+    if rng.random() < p_grid:
+        return rng.choice([t for t in TEMPERATURE_GRID if lo <= t <= hi] or [0.5 * (lo + hi)])
+    return rng.uniform(lo, hi)
+
+
+def pooled_composition(rng):
+    """one of eight long-lived mass-fraction Composition objects (the library must treat them as read-only values)"""
+    if not _COMPOSITION_POOL:
+        for w in (0.05, 0.1, 0.2, 0.35, 0.5, 0.65, 0.8, 0.93):
+            _COMPOSITION_POOL.append(Composition(p=w, type=CompositionType.weight))
+    return rng.choice(_COMPOSITION_POOL)
+
+
 def case_rng(prop, seed, shard, index):
     return random.Random(f"{prop}:{seed}:{shard}:{index}")
 
@@ -261,6 +282,8 @@ def gen_membrane(rng, mixture, n1=None, n2=None, stated=None, on_line=None, same
 
 
 def describe_membrane(mem):
+    if mem.ideal_experiments is None:
+        return {"name": mem.name, "ideal_experiments": None}
     return [
         [e.component.name, e.temperature, e.permeance.value, e.permeance.units, e.activation_energy]
         for e in mem.ideal_experiments.experiments
@@ -408,8 +431,8 @@ class FluxCase:
         self.model = rng.choice(list(models))
         self.membrane = gen_membrane(rng, self.mix)
         self.pv = Pervaporation(self.membrane, self.mix)
-        self.t_feed = rng.uniform(273.0, 400.0)
-        self.comp = gen_composition(rng, self.mix, edge=edge)
+        self.t_feed = pick_temperature(rng, 273.0, 400.0)
+        self.comp = pooled_composition(rng) if rng.random() < 0.15 else gen_composition(rng, self.mix, edge=edge)
         self.mode = rng.choice(modes or MODES)
         self.from_membrane = rng.random() < p_membrane
         if self.from_membrane:
@@ -448,3 +471,31 @@ def refmodel_permeance_kg(permeance, component):
     from . import refmodel
 
     return refmodel.permeance_kg(permeance.value, permeance.units, component.molecular_weight)
+
+
+# --------------------------------------------------------------------------- bundled (real) membranes
+def load_bundled(tmpdir):
+    """the membranes shipped with the repository's tests, loaded from a COPY (Membrane.load creates a results directory)
+    -> [(membrane, [curve sets])]"""
+    import shutil
+    from pathlib import Path
+
+    from . import bootstrap
+
+    src = bootstrap.repo_root() / "tests" / "default_membranes"
+    dst = Path(tmpdir) / "default_membranes"
+    if not dst.exists():
+        shutil.copytree(src, dst, ignore=shutil.ignore_patterns("results"))
+    out = []
+    for d in sorted(dst.iterdir()):
+        if not d.is_dir():
+            continue
+        try:
+            m = Membrane.load(d)
+        except Exception:
+            continue
+        if m.diffusion_curve_sets:
+            m.diffusion_curve_sets = [cs for cs in m.diffusion_curve_sets if len(cs.diffusion_curves) > 0]
+        if m.diffusion_curve_sets:
+            out.append(m)
+    return out
